@@ -242,6 +242,10 @@ func (propC14) Gen(r *Rng, run uint64, tier string) *Plan {
 	if r.Bool(0.3) {
 		spec.NMax = 1
 	}
+	if r.Bool(0.3) {
+		// runs of records that share one timestamp within a container's log
+		spec.DupTS = 0.25
+	}
 	if !sweep {
 		switch x := r.Intn(100); {
 		case x < 6:
@@ -400,7 +404,12 @@ func (propC14) Gen(r *Rng, run uint64, tier string) *Plan {
 			case kind == FaultCut && fr.Bool(0.4):
 				f.ErrKind = "unexpected"
 			case kind == FaultReadError:
-				f.ErrKind = []string{"", "", "deadline", "closed", "with_data"}[fr.Intn(5)]
+				f.ErrKind = []string{"", "", "deadline", "closed", "with_data", "reset", "reset", "epipe", "canceled"}[fr.Intn(9)]
+			}
+			if open < 0 && fr.Bool(0.4) {
+				// only the first request for this container's log fails (a second one,
+				// should the code ask again, is served)
+				f.Open = 0
 			}
 			p.Tags["pos"] = class
 			p.Tags["frame"] = fmt.Sprint(fi)
@@ -736,6 +745,10 @@ func (propC14) Check(t *testing.T, p *Plan, st *Stats) *Violation {
 	// (iii) every reader handed out is closed by the time evaluation returns.
 	closeViol := func(oo *Outcome, which string) *Violation {
 		for _, s := range oo.Streams {
+			if s.Closes >= 1 && s.OpenAtReturn {
+				return viol("C14(iii:reader-closed-late)", "every opened log reader closed by the time evaluation returns ("+which+")",
+					fmt.Sprintf("reader of container %s (open #%d) was still open when evaluation returned and was closed afterwards by a goroutine the evaluation did not wait for; evaluation outcome: %s %s", s.ID, s.OpenIdx, oo.ErrClass(), clip(oo.ErrText, 120)))
+			}
 			if s.Closes < 1 {
 				return viol("C14(iii:reader-not-closed)", "every opened log reader closed when evaluation returns ("+which+")",
 					fmt.Sprintf("reader of container %s (open #%d) was never closed; evaluation outcome: %s %s; %d readers opened", s.ID, s.OpenIdx, oo.ErrClass(), clip(oo.ErrText, 120), len(oo.Streams)))
